@@ -140,6 +140,7 @@ type dtJob struct {
 	pkg   *dtPkg
 	mode  string // base | source-map
 	alone string // "" or the base name passed as -file=
+	pre   string // "" or a generation mode cff is run with first, in the same directory
 	// result
 	exit              int
 	output            string
@@ -153,6 +154,14 @@ func (j *dtJob) run(bin string, dir string) {
 	defer os.RemoveAll(dir)
 	if j.err = copyTree(j.pkg.mod.pristine, dir, nil); j.err != nil {
 		return
+	}
+	if j.pre != "" {
+		// an earlier run in the same directory (other mode): what this run writes must not depend on it
+		var pargs []string
+		if j.pre != "base" {
+			pargs = append(pargs, "-genmode="+j.pre)
+		}
+		runCff(dir, bin, append(pargs, j.pkg.pattern())...)
 	}
 	var args []string
 	if j.mode != "base" {
@@ -297,6 +306,7 @@ func runDT(cfg *config, o *out) error {
 		mode  string
 		whole []*dtJob
 		alone []*dtJob
+		seq   *dtJob
 	}
 	var groups []*group
 	var jobs []*dtJob
@@ -314,6 +324,12 @@ func runDT(cfg *config, o *out) error {
 					g.alone = append(g.alone, j)
 					jobs = append(jobs, j)
 				}
+				other := "base"
+				if mode == "base" {
+					other = "source-map"
+				}
+				g.seq = &dtJob{pkg: p, mode: mode, pre: other}
+				jobs = append(jobs, g.seq)
 				groups = append(groups, g)
 			}
 		}
@@ -396,8 +412,15 @@ func runDT(cfg *config, o *out) error {
 		} else if !exitsSame {
 			identical = "0"
 		}
-		o.add("DT %s mode=%s runs=%d identical=%s alone_identical=%s files=%d others_untouched=%d exit=%d",
-			p.name(), g.mode, R, identical, aloneIdentical, len(w0.created), b2i(untouched), w0.exit)
+		seqIdentical := "-"
+		if w0.exit == 0 && g.seq != nil {
+			seqIdentical = fmt.Sprint(b2i(g.seq.exit == 0 && sameCreated(w0, g.seq)))
+		}
+		o.add("DT %s mode=%s runs=%d identical=%s alone_identical=%s seq_identical=%s files=%d others_untouched=%d exit=%d",
+			p.name(), g.mode, R, identical, aloneIdentical, seqIdentical, len(w0.created), b2i(untouched), w0.exit)
+		if seqIdentical == "0" {
+			o.add("X DT %s mode=%s seq_identical=0 (a run in the other mode in the same directory changed what this run writes)", p.name(), g.mode)
+		}
 		if identical == "0" || aloneIdentical == "0" || !untouched {
 			sort.Strings(offending)
 			o.add("X DT %s mode=%s identical=%s alone_identical=%s others_untouched=%d offending=%s",
